@@ -31,6 +31,9 @@ Verdict(r) ==
       viol |-> IF ~InTable(s) THEN <<>> ELSE SetToSeq(
          (IF r.err = "" THEN {} ELSE {"NoError"})
          \cup (IF changed <=> GuardsHold(s) THEN {} ELSE {"C10_AppliesIffGuardsHold"})
+         \* a metavariable bound by an import line stands for that import's name in the code pattern too:
+         \* the same call through another name is not an instance
+         \cup (IF r.decoy = "1" THEN {} ELSE {"C10_ImportNameBindsBody"})
          \cup (IF (~GuardsHold(s)) /\ out # SeqToSet(s.fimps) THEN {"C10_GuardFailedNoEffect"} ELSE {})
          \cup (IF GuardsHold(s) /\ changed THEN C11_Violations(s, out) ELSE {}))]
 
